@@ -1,7 +1,7 @@
 //! Batches, seeded search, minimisation, known findings, replay files and evidence.
 
 use crate::cx::*;
-use crate::exec::execute;
+use crate::exec::{execute, execute_mode};
 use crate::gen::{self, gen_trace, GenCfg};
 use crate::json::{self, J};
 use crate::op::{Op, K};
@@ -217,7 +217,7 @@ pub fn run_batch(prop: &str, props: u32, b: &Batch, seed: u64, nworkers: usize, 
                             break;
                         }
                         let mut rng = Rng::new(run_seed(seed, tag, r));
-                        let trace = gen_trace(&mut rng, &b.cfg);
+                        let trace = gen_trace(&mut rng, &b.cfg, r);
                         let res = execute(&trace, props, true);
                         st.merge(&res.st);
                         st.add("runs", 1);
@@ -294,16 +294,43 @@ pub struct Minimiser {
     pub props: u32,
     pub prop: u32,
     pub inv: &'static str,
+    /// remaining budget, in simulated operations (not executions: long histories are dear)
     pub budget: u64,
+    /// observe only the final state of long candidates (sound: see exec::execute_mode)
+    pub final_only: bool,
 }
 
 impl Minimiser {
     fn fails(&mut self, t: &Op) -> bool {
-        if self.budget == 0 {
+        let cost = 50 + t.s.len() as u64;
+        if self.budget < cost {
+            self.budget = 0;
             return false;
         }
-        self.budget -= 1;
-        execute(t, self.props, false).viol.iter().any(|v| v.prop == self.prop && v.inv == self.inv)
+        self.budget -= cost;
+        execute_mode(t, self.props, false, self.final_only).viol.iter().any(|v| v.prop == self.prop && v.inv == self.inv)
+    }
+
+    /// Start from the prefix that ends at the violating step; if that prefix fails with only its
+    /// final state observed, long candidates are evaluated that way from then on.
+    pub fn minimise_found(&mut self, t: &Op, step: usize) -> Op {
+        let mut start = t.clone();
+        if step > 0 && step < start.s.len() {
+            let mut pre = t.clone();
+            pre.s.truncate(step);
+            self.final_only = true;
+            if self.fails(&pre) {
+                start = pre;
+            } else {
+                self.final_only = false;
+            }
+        } else {
+            self.final_only = true;
+            if !self.fails(&start) {
+                self.final_only = false;
+            }
+        }
+        self.minimise(start)
     }
 
     /// delta-debug the child list of the node reached by `path` from the root
@@ -583,8 +610,8 @@ pub fn check(prop: &str, tier: &str, profile: &str, evidence_path: Option<String
             if f.v.prop != props || minimised >= 8 {
                 continue;
             }
-            let mut m = Minimiser { props, prop: f.v.prop, inv: f.v.inv, budget: 4000 };
-            let small = m.minimise(f.trace.clone());
+            let mut m = Minimiser { props, prop: f.v.prop, inv: f.v.inv, budget: 6_000_000, final_only: false };
+            let small = m.minimise_found(&f.trace, f.v.step);
             minimised += 1;
             let sig = (f.v.inv.to_string(), trigger_sig(&small));
             if !reported.insert((format!("{}/{}", small.k.name(), sig.0), sig.1.clone())) {
@@ -830,7 +857,7 @@ pub fn print_trace(prop: &str, batch: usize, run: u64) -> i32 {
         None => return 2,
     };
     let mut rng = Rng::new(run_seed(verif_seed(), tag_of(prop, b.name), run));
-    let t = gen_trace(&mut rng, &b.cfg);
+    let t = gen_trace(&mut rng, &b.cfg, run);
     println!("{}", trace_file(prop, "", b.name, verif_seed(), run, t.k, "", &t, "n/a").to_string_pretty());
     0
 }
